@@ -175,6 +175,14 @@ let () = iter_lines (fun line ->
            (match select_modules false s.ts_lossless s.ts_arith s.ts_progressive s.ts_prec (zi 1) s.ts_optimize with
             | Inl _ -> print_endline "rej"
             | Inr _ -> print_endline "any"))
+  | [ "ref"; _nbx; _nby; _opt ] ->
+      let counts = ints (List.nth fs 1) in
+      let blk c = let (c, extra) = if c >= 100 then (c - 100, true) else (c, false) in
+        let c = min c 63 in
+        List.init 63 (fun i -> if i < c then Ccorr else if extra && i = c then Cnew else Czero) in
+      let w = refine_scan { r_EOBRUN = Z0; r_BE = Z0 } (List.map blk counts) in
+      let mx = List.fold_left (fun a x -> max a (iz x)) (-1) w in
+      print_endline (if mx < iz g_CORR_BUFFER_SIZE then "ok" else "ok OOB")
   | [ "qs"; quality; force; linear; scale ] ->
       let (t0, t1) = if linear <> "0" then linear_quality_tables (zi (int_of_string scale)) (force <> "0")
                      else set_quality_tables (zi (int_of_string quality)) (force <> "0") in
